@@ -111,7 +111,7 @@ func (s *scn) applyKV(st CStep) {
 	val := fmt.Sprintf("v%d", s.kvSeq)
 	if m == "burn" {
 		gl := s.cfg.World.GasLimit
-		if gl == 0 || gl > 10000000 {
+		if gl == 0 || gl > 3000000 {
 			m = "put" // (with the shipped limit of 100 M a call near the limit takes too long)
 		} else {
 			// a loop iteration costs a handful of fuel units: the factors put the call's cost on either side of the limit
